@@ -51,7 +51,7 @@ def err_dict(e: BaseException) -> dict:
             "text": e.text,
         }
     if isinstance(e, TokenError):
-        return {"k": "tokerr", "cls": "TokenError", "msg": str(e.args[0]) if e.args else "", "pos": e.args[1] if len(e.args) > 1 else None}
+        return {"k": "tokerr", "cls": "TokenError", "msg": str(e.args[0]) if e.args else "", "pos": list(e.args[1]) if len(e.args) > 1 and isinstance(e.args[1], tuple) else None}
     return {"k": "exc", "cls": type(e).__name__, "msg": str(e)[:200]}
 
 
